@@ -175,6 +175,29 @@ Definition kf_of (sy : system) (o : json) : list string :=
      (if event_risky (jnorm (jget_d "event" o)) then ["D7"] else []))%list
   else [].
 
+(** Matcher nondeterminism (D10/D12, dependency): a repeated variable that may
+    land on structured data, or "?"-strings in the data, make core.Match's
+    answer depend on Go's map order.  Such reads are not compared. *)
+Definition all_facts (sy : system) : list json :=
+  flat_map (fun kv => map snd (st_facts (l_state (snd kv)))) sy.
+
+Definition op_risky (sy : system) (o : json) : bool :=
+  let op := jfS "op" o in
+  if String.eqb op "search" then
+    let p := jnorm (jget_d "pattern" o) in
+    existsb (fun f => struct_risk p f [] || negb (ground f)) (all_facts sy)
+  else if String.eqb op "event" then
+    let ev := jnorm (jget_d "event" o) in
+    negb (ground ev) ||
+    existsb (fun f => match jget "rule" f with
+                      | Some r => match rule_patterns r with
+                                  | Some p => struct_risk p ev []
+                                  | None => false
+                                  end
+                      | None => false
+                      end) (all_facts sy)
+  else false.
+
 Record acc := mkAcc {
   a_sys : system;
   a_k : Z;
@@ -200,7 +223,8 @@ Definition step_acc (a : acc) (o : json) : acc :=
       let sy0 := sys_clear_amb (a_sys a) in
       let try now :=
         let '(sy', m) := run_op sy0 o now in
-        if same_res m obs || sys_amb sy' then Some (sy', m, sys_amb sy') else None in
+        let amb := sys_amb sy' || op_risky sy0 o in
+        if same_res m obs || amb then Some (sy', m, amb) else None in
       let r := match try t with
                | Some x => Some x
                | None => if t2 =? t then None else try t2
@@ -253,6 +277,7 @@ Definition check_loc (c : json) : json :=
                            | None => match kf with [] => "" | _ => "known finding" end
                            end));
         ("spec_at", match a_spec a with Some (k, _) => JNum k | None => JNull end);
+        ("spec_op", match a_spec a with Some (_, w) => JStr w | None => JNull end);
         ("kf", jstrs_of (match a_spec a with Some _ => [] | None => kf end));
         ("features", jstrs_of (dedup_str (a_feats a)));
         ("nontrivial", JBool (3 <=? Z.of_nat (length (dedup_str (a_feats a)))));
